@@ -194,6 +194,23 @@ def generate(problems):
     if not (gev_body and env_prefix_assign and gdcf_body and ppc_body and key_sel):
         problems.append("subcmd_shape: environment-name / default-config statements not found")
 
+    # ------------------------------------------------------------------ session 2: EVERY statement of the anchored functions
+    def _stmts(fn):
+        return [_u(x) for x in fn.body if not (isinstance(x, ast.Expr) and isinstance(x.value, ast.Constant))]
+
+    gsc = _find(cls, ast.FunctionDef, "get_subcommand")
+    body_gs, body_gsc, body_hs, body_asc, body_asc2 = _stmts(gs), _stmts(gsc), _stmts(hs), _stmts(asc), _stmts(asc2)
+    # _load_env_vars: the first line of every top-level statement (the bodies of the loops that concern subcommands are
+    # pinned by envBranch / loadEnvVarsLoops; the list handling of the third loop is not C17's)
+    le_skeleton = [s.split("\n")[0] for s in _stmts(le)]
+    sig = {}
+    for label, fn in (("get_subcommands", gs), ("get_subcommand", gsc), ("handle_subcommands", hs), ("add_subcommands", asc2)):
+        a = fn.args
+        dflts = [None] * (len(a.args) - len(a.defaults)) + [_u(d) for d in a.defaults]
+        sig[label] = ["%s=%s" % (x.arg, d) if d is not None else x.arg for x, d in zip(a.args, dflts)]
+    if not (body_gs and body_gsc and body_hs and body_asc and body_asc2 and le_skeleton):
+        problems.append("subcmd_shape: body of an anchored function is empty")
+
     body = "namespace Jap.Gen.SubcmdShape\n"
     body += "def keysExpr : String := %s\n" % lean_str(keys_expr or "")
     body += "def explicitTest : String := %s\n" % lean_str(explicit_test or "")
@@ -228,5 +245,12 @@ def generate(problems):
     body += "def envOverDefaults : List String := %s\n" % lean_str_list(pde_merge)
     body += "def loadEnvVarsLoops : List String := %s\n" % lean_str_list(lev_tests)
     body += "def defaultEnvPropagation : List String := %s\n" % lean_str_list(de_prop)
+    body += "def bodyGetSubcommands : List String := %s\n" % lean_str_list(body_gs)
+    body += "def bodyGetSubcommand : List String := %s\n" % lean_str_list(body_gsc)
+    body += "def bodyHandleSubcommands : List String := %s\n" % lean_str_list(body_hs)
+    body += "def bodyAddSubcommand : List String := %s\n" % lean_str_list(body_asc)
+    body += "def bodyAddSubcommands : List String := %s\n" % lean_str_list(body_asc2)
+    body += "def loadEnvVarsSkeleton : List String := %s\n" % lean_str_list(le_skeleton)
+    body += "def signatures : List String := %s\n" % lean_str_list(["%s(%s)" % (k, ", ".join(v)) for k, v in sorted(sig.items())])
     body += "end Jap.Gen.SubcmdShape\n"
     write_if_changed("SubcmdShape.lean", body)
